@@ -13,15 +13,21 @@ theorem property_lists_in_table :
     (∀ n ∈ propertyCopy, classOf n = some .copy) ∧
     classOf "contiguous" = some .contiguous := by decide +kernel
 
+theorem lookup_none_of_not_mem_keys {β} : ∀ (l : List (String × β)) (k : String), k ∉ l.map (·.1) → l.lookup k = none
+  | [], _, _ => rfl
+  | (k', v) :: l, k, h => by
+      simp only [List.map_cons, List.mem_cons, not_or] at h
+      simp only [List.lookup]
+      have : (k == k') = false := by simpa using h.1
+      rw [this]
+      exact lookup_none_of_not_mem_keys l k h.2
+
 /-- on every container kind the code is modelled with the class the documentation assigns, for EVERY
 operation, except for the rows of `knownDeviations` -/
 theorem modelClass_eq_docClass_of_not_deviation (op kind : String)
     (h : (op ++ "%" ++ kind) ∉ knownDeviations.map (·.1)) : modelClass op kind = docClass op kind := by
   unfold modelClass
-  simp only [knownDeviations, List.map_cons, List.map_nil, List.mem_singleton] at h
-  simp only [knownDeviations, List.lookup]
-  have : (op ++ "%" ++ kind == "__getitem__/advanced%lazy") = false := by simpa using h
-  rw [this]
+  rw [lookup_none_of_not_mem_keys _ _ h]
 
 theorem property_ops_doc_class :
     ∀ kind ∈ kinds,
